@@ -181,6 +181,8 @@ pub enum BrokerEv {
     Script(usize),
     HsDelay(usize),
     EofNow,
+    /// a scripted action whose target did not exist yet
+    Retry(Action, u32),
 }
 
 /// What the broker has put on the wire, in order of enqueueing per channel.
@@ -252,7 +254,7 @@ struct ChanState {
     confirm: bool,
     confirm_next_tag: u64,
     unconfirmed: Vec<u64>,
-    consumers: Vec<(String, bool)>, // tag, active
+    consumers: Vec<(String, bool, bool)>, // tag, active, ConsumeOk on the wire
     pending_pub: Option<usize>,     // index into publishes log
     next_delivery_tag: u64,
 }
@@ -408,6 +410,15 @@ impl Broker {
         };
         if !allowed {
             return;
+        }
+        if let SentKind::Reply { ch: c, method: AMQPClass::Basic(B::ConsumeOk(ok)), .. } = &what {
+            if let Some(cs) = self.chans.get_mut(c) {
+                for x in cs.consumers.iter_mut() {
+                    if x.0 == ok.consumer_tag {
+                        x.2 = true;
+                    }
+                }
+            }
         }
         let q = self.muxq.entry(ch).or_default();
         let n = frames.len();
@@ -584,6 +595,7 @@ impl Broker {
             return;
         }
         // anything still on the mux queues goes out first
+        self.flush_all();
         self.s2c_closed = true;
         self.eof_sent_at = Some(simrt::now_ns());
         let at = self.last_s2c_at.max(simrt::now_ns() + self.cfg.s2c_lat_min_ns) + 1;
@@ -692,6 +704,7 @@ impl Broker {
             BrokerEv::Script(i) => self.fire_script(i),
             BrokerEv::HsDelay(i) => self.hs_fire(i),
             BrokerEv::EofNow => self.send_eof(false),
+            BrokerEv::Retry(a, n) => self.do_action_n(a, n),
         }
     }
 
@@ -814,9 +827,16 @@ impl Broker {
     /// number the synchronous request that just arrived on `ch` and run scripted reactions;
     /// returns (req_no, answer_it)
     fn begin_request(&mut self, ch: u16) -> (u32, bool) {
+        self.begin_request_x(ch, true)
+    }
+
+    fn begin_request_x(&mut self, ch: u16, scripted: bool) -> (u32, bool) {
         let cs = self.chans.entry(ch).or_default();
         let req_no = cs.req_no;
         cs.req_no += 1;
+        if !scripted {
+            return (req_no, true);
+        }
         // scripted reaction instead of / in addition to the reply?
         let mut instead = false;
         for i in 0..self.cfg.script.len() {
@@ -836,7 +856,9 @@ impl Broker {
     }
 
     fn reply(&mut self, ch: u16, method: AMQPClass) {
-        let (req_no, answer) = self.begin_request(ch);
+        // a close request is always answered: scripted reactions do not replace CloseOk
+        let scripted = !matches!(method, AMQPClass::Channel(Ch::CloseOk(_)));
+        let (req_no, answer) = self.begin_request_x(ch, scripted);
         if !answer {
             return;
         }
@@ -861,8 +883,30 @@ impl Broker {
     }
 
     pub fn do_action(&mut self, action: Action) {
+        self.do_action_n(action, 0)
+    }
+
+    fn retry_later(&mut self, action: Action, n: u32) {
+        if n < 40000 && self.phase == Phase::Open && !self.s2c_closed {
+            simrt::schedule_in(250_000, true, "broker.retry", Box::new(BrokerEv::Retry(action, n + 1)));
+        }
+    }
+
+    fn do_action_n(&mut self, action: Action, attempt: u32) {
         match action {
             Action::CloseChannel { ch, code, text } => {
+                if self.phase != Phase::Open {
+                    return;
+                }
+                match self.chans.get(&ch) {
+                    None => {
+                        // not opened yet: try again a little later
+                        self.retry_later(Action::CloseChannel { ch, code, text }, attempt);
+                        return;
+                    }
+                    Some(c) if !c.open => return, // already closed by either side
+                    _ => {}
+                }
                 let close = channel::Close { reply_code: code, reply_text: text.clone(), class_id: 0, method_id: 0 };
                 if let Some(cs) = self.chans.get_mut(&ch) {
                     cs.open = false;
@@ -877,6 +921,9 @@ impl Broker {
                 self.enqueue_now(ch, vec![Self::m(ch, AMQPClass::Channel(Ch::Close(close)))], SentKind::ChannelClose { ch, code, text });
             }
             Action::CloseConnection { code, text } => {
+                if self.phase != Phase::Open {
+                    return;
+                }
                 let close = connection::Close { reply_code: code, reply_text: text.clone(), class_id: 0, method_id: 0 };
                 self.phase = Phase::ServerClosing;
                 // a server that closes stops everything else
@@ -887,6 +934,20 @@ impl Broker {
                 self.enqueue_now(0, vec![Self::m(0, AMQPClass::Connection(Cn::Close(close)))], SentKind::ConnectionClose { code, text });
             }
             Action::CancelConsumer { ch, nth_consumer, nowait } => {
+                if self.phase != Phase::Open {
+                    return;
+                }
+                // the consumer exists for the client only once its ConsumeOk is on the wire
+                let exists = self.chans.get(&ch).map(|c| (c.open, c.consumers.get(nth_consumer as usize).map(|x| x.2).unwrap_or(false)));
+                match exists {
+                    None | Some((true, false)) => {
+                        // channel or consumer not there yet: try again a little later
+                        self.retry_later(Action::CancelConsumer { ch, nth_consumer, nowait }, attempt);
+                        return;
+                    }
+                    Some((false, _)) => return,
+                    _ => {}
+                }
                 let tag = self.chans.get_mut(&ch).and_then(|cs| {
                     cs.consumers.get_mut(nth_consumer as usize).and_then(|c| {
                         if c.1 {
@@ -1229,7 +1290,7 @@ impl Broker {
                 B::Consume(c) => {
                     let tag = if c.consumer_tag.is_empty() { format!("ctag-{}-{}", ch, self.uniq()) } else { c.consumer_tag.clone() };
                     let cs = self.chans.entry(ch).or_default();
-                    cs.consumers.push((tag.clone(), true));
+                    cs.consumers.push((tag.clone(), true, false));
                     let before = self.script_fired.clone();
                     self.reply(ch, AMQPClass::Basic(B::ConsumeOk(basic::ConsumeOk { consumer_tag: tag.clone() })));
                     let _ = before;
